@@ -9,15 +9,19 @@ VARIABLE l
 Tr == ndJsonDeserialize(IOEnv.TRACE)
 ev == Tr[l]
 
+\* The value is compared first: an action with several allowed outcomes (fault schedules) is pinned to the recorded one.
+FaultOps == {"new_fault", "reinit_fault"}
 ObsTrace(op, args, ret, anyret, post) ==
     /\ op = ev.op /\ args = ev.args
-    \* E: return value not claimed.  A differing return value does not stop the validation (the VALUE is what later
-    \* steps depend on): it is printed and reported by the check as a violation of its own.
-    /\ (anyret \/ ret = ev.ret \/ PrintT(<<"RET_MISMATCH", l>>))
-    \* Conv_CmpWithPtrCountBeyondLength: where the return value of (n)cmp_with_ptr is E, it is EQUAL or LESS, nothing else
-    /\ ((anyret /\ op \in {"cmp_with_ptr", "ncmp_with_ptr"}) => (ev.ret \in {0, 0 - 1} \/ PrintT(<<"RET_MISMATCH", l>>)))
     /\ post.a = (IF ev.ca THEN ev.pa ELSE Pre.a)
     /\ post.b = (IF ev.cb THEN ev.pb ELSE Pre.b)
+    \* E: return value not claimed.  A differing return value does not stop the validation (the VALUE is what later
+    \* steps depend on): it is printed and reported by the check as a violation of its own.  (Fault operations: the
+    \* return value selects the outcome, so it is compared strictly.)
+    /\ IF op \in FaultOps THEN ret = ev.ret
+       ELSE (anyret \/ ret = ev.ret \/ PrintT(ToJson([ret_mismatch |-> l])))
+    \* Conv_CmpWithPtrCountBeyondLength: where the return value of (n)cmp_with_ptr is E, it is EQUAL or LESS, nothing else
+    /\ ((anyret /\ op \in {"cmp_with_ptr", "ncmp_with_ptr"}) => (ev.ret \in {0, 0 - 1} \/ PrintT(ToJson([ret_mismatch |-> l]))))
 
 TraceInit == Init /\ l = 1
 A1 == ev.args[1]
@@ -34,6 +38,8 @@ TraceStep ==
        \/ ev.op = "new_from_buff_null" /\ OpNewFromBuffNull(A1, A2)
        \/ ev.op = "new_from_fp" /\ A1 \in Kinds /\ OpNewFromFp(A1, A2)
        \/ ev.op = "new_from_fd" /\ A1 \in Kinds /\ OpNewFromFd(A1, A2)
+       \/ ev.op = "new_fault" /\ OpNewFault(A1, A2, A3, ev.args[4], ev.args[5], ev.args[6], ev.args[7])
+       \/ ev.op = "reinit_fault" /\ OpReinitFault(A1, A2, A3, ev.args[4], ev.args[5], ev.args[6], ev.args[7])
        \/ ev.op = "append" /\ OpAppend(A1)
        \/ ev.op = "append_from_ptr" /\ OpAppendFromPtr(A1)
        \/ ev.op = "append_from_ptr_null" /\ OpAppendFromPtrNull(A1)
@@ -72,6 +78,7 @@ TraceStep ==
        \/ ev.op = "b_dup_to_a" /\ OpBDupToA
 TraceSpec == TraceInit /\ [][TraceStep]_<<vars, l>>
 \* accepted iff every line was consumed: diameter counts the initial state plus one state per line
+\* (verdict lines are printed as JSON so that they survive the state dump TLC prints after a false postcondition)
 TraceAccepted == \/ TLCGet("stats").diameter - 1 = Len(Tr)
-                 \/ PrintT(<<"TRACE_REJECTED_AFTER", TLCGet("stats").diameter - 1, "OF", Len(Tr)>>) /\ FALSE
+                 \/ PrintT(ToJson([rejected_after |-> TLCGet("stats").diameter - 1, of |-> Len(Tr)])) /\ FALSE
 ================================================================================
